@@ -164,7 +164,10 @@ def proxied_worker(args, scratch):
                 conn.send(raw)
                 resp = conn.read_response(method.encode())
             except Exception as e:  # noqa
-                res["violations"].append(["no-response", {"id": vid, "err": repr(e), "target": target, "method": method}])
+                if common.is_timeout(e):
+                    res.setdefault("inconclusive", []).append("client socket watchdog (60 s) fired while waiting for the proxy; not a verdict") if not res.get("inconclusive") else None
+                else:
+                    res["violations"].append(["no-response", {"id": vid, "err": repr(e), "target": target, "method": method}])
                 conn.close(); conn = None
                 continue
             res["evaluations"] += 1
